@@ -68,7 +68,7 @@ pub fn worker(path: &str) {
 }
 
 fn make_record(ch: &[u32], t: usize, variant: u8) -> Value {
-    let (mut prog, _, _) = progen::generate(ch, progen::Profile::full());
+    let (mut prog, _, _) = progen::generate(ch, progen::Profile { multi_payload: true, ..progen::Profile::full() });
     // name clashes with generated `_N` suffixes: an overloaded name `f` is emitted as f_0, f_1; call something else `f_0`
     let mut rich = prog.scene.pipelines.len() >= 1 && prog.resources.len() >= 4;
     if variant % 3 == 0 {
@@ -113,7 +113,7 @@ fn make_record(ch: &[u32], t: usize, variant: u8) -> Value {
 }
 
 pub fn run(ctx: &mut Ctx) {
-    ctx.rule = "Inputs: generated programs with >= 4 resources across bind groups (buffer addresses in several groups for the inline blocks, resources declared out of slot order), 2-6 statics used per function, overload sets / template instances / structs whose names collide with generated `_N` suffixes, include graphs with #pragma once reached by two paths, rejected variants (diagnostics), and overload sets of one name (also reserved words) in the global scope and in sibling / nested namespaces; x 4 targets x {all, named, no-pipeline} x layout validation on/off. Oracle: the full result (sources, stages, metadata, state or diagnostic text) is identical across 4 evaluations in one process (every compile builds fresh HashMaps with fresh seeds) and across 8 freshly spawned processes. Non-trivial = the input has a pipeline and >= 4 resources or a forced name collision. Distinct = hash of the record.".into();
+    ctx.rule = "Inputs: generated programs with >= 4 resources across bind groups (buffer addresses in several groups for the inline blocks, resources declared out of slot order), 2-6 statics used per function, task shaders dispatching two payload types, overload sets / template instances / structs whose names collide with generated `_N` suffixes, include graphs with #pragma once reached by two paths, rejected variants (diagnostics), and overload sets of one name (also reserved words) in the global scope and in sibling / nested namespaces; x 4 targets x {all, named, no-pipeline} x layout validation on/off. Oracle: the full result (sources, stages, metadata, state or diagnostic text) is identical across 4 evaluations in one process (every compile builds fresh HashMaps with fresh seeds) and across 8 freshly spawned processes. Non-trivial = the input has a pipeline and >= 4 resources or a forced name collision. Distinct = hash of the record.".into();
     ctx.assumptions.push("no source of non-determinism other than hash seeds exists in the code read (no clock, threads, addresses or environment access)".into());
     if !ctx.replay_tier(&check_record) {
         return;
